@@ -44,6 +44,9 @@ fn marshal_array(
 }
 
 fn marshal_struct(params: &[params::Param], ctx: &mut MarshalContext) -> Result<(), MarshalError> {
+    if params.is_empty() {
+        return Err(signature::Error::EmptyStruct.into());
+    }
     ctx.align_to(8);
     for p in params {
         marshal_param(p, ctx)?;
